@@ -445,8 +445,14 @@ func GenFrame(r *rand.Rand, t uint8, v uint8, o GenOpts) FrameIn {
 		if wild() {
 			fi.N[2] = genSeq(r, o)
 		}
-		if r.IntN(3) == 0 {
+		switch r.IntN(6) {
+		case 0, 1:
 			fi.S[0] = ""
+		case 2: // the usual shapes: a 36-byte uuid, a short token
+			fi.S[0] = hex.EncodeToString([]byte(vh.Pick(r, "cb123456-1234-1234-1234-123456789abc", "client-msg-no", "m1")))
+		}
+		if r.IntN(2) == 0 { // MessageSeq whose leading bytes look like the length prefix of ClientMsgNo
+			Relate(r, &fi, v, 1)
 		}
 	case 5:
 		fi.N[0], fi.N[1], fi.N[2], fi.N[3] = genSetting(r), genU(r, 32), genU(r, 64), genSeq(r, o)
@@ -501,6 +507,74 @@ func Boundary(r *rand.Rand, fi *FrameIn) {
 	i := r.IntN(len(fi.S))
 	n := vh.Pick(r, 32766, 32767, 32767, 32768, 32768, 40000, 16300+r.IntN(120))
 	fi.S[i] = Periodic(r, n)
+}
+
+// numeric field widths in bits, per frame type, in FrameIn.N order
+var widths = map[uint8][]uint{
+	1: {8, 8, 64}, 2: {8, 64, 8, 64}, 3: {8, 32, 32, 8}, 4: {64, 64, 32, 8},
+	5: {8, 32, 64, 64, 64, 8, 32, 8, 64}, 6: {64, 64}, 9: {8}, 10: {8, 8, 8}, 11: {8, 8, 8}, 12: {64},
+}
+
+// seqIndex is the position of MessageSeq in FrameIn.N (its width is 32 bits up to LegacyMessageSeqVersion).
+var seqIndex = map[uint8]int{4: 1, 5: 3, 6: 1}
+
+func fieldBits(t uint8, i int, v uint8) uint {
+	b := widths[t][i]
+	if si, ok := seqIndex[t]; ok && si == i && v <= frame.LegacyMessageSeqVersion {
+		b = 32
+	}
+	return b
+}
+
+// Relate makes a numeric field look like a length prefix of one of the frame's own
+// strings at some byte position of its big-endian encoding: n = len(s) << (8*k) | r,
+// or a neighbour of such a boundary.  Decoders with alternative layouts (SENDACK:
+// core-first, then the transitional clientMsgNo-first) must not be fooled by it.
+func Relate(r *rand.Rand, fi *FrameIn, v uint8, i int) {
+	if len(fi.S) == 0 || i >= len(fi.N) {
+		return
+	}
+	bits := fieldBits(fi.T, i, v)
+	if bits < 16 {
+		return
+	}
+	j := r.IntN(len(fi.S))
+	l := uint64(len(fi.S[j]) / 2)
+	sh := bits - 16 // the two most significant bytes, where a leading string length would sit
+	if r.IntN(4) == 0 {
+		sh = 8 * uint(r.IntN(int(bits/8)-1))
+	}
+	var n uint64
+	switch r.IntN(8) {
+	case 0:
+		n = l<<sh - 1
+	case 1:
+		n = (l + 1) << sh
+	case 2:
+		n = (l+1)<<sh - 1
+	case 3:
+		n = l << sh
+	case 4: // the length of the whole tail that would follow a leading string
+		n = (l+uint64(r.IntN(12)))<<sh | genU(r, sh)
+	default:
+		n = l<<sh | genU(r, sh)
+	}
+	if bits < 64 {
+		n &= uint64(1)<<bits - 1
+	}
+	fi.N[i] = n
+}
+
+// RelateAny applies Relate to MessageSeq when the type has one (most of the time) or to a random numeric field.
+func RelateAny(r *rand.Rand, fi *FrameIn, v uint8) {
+	if len(fi.N) == 0 {
+		return
+	}
+	if si, ok := seqIndex[fi.T]; ok && r.IntN(4) != 0 {
+		Relate(r, fi, v, si)
+		return
+	}
+	Relate(r, fi, v, r.IntN(len(fi.N)))
 }
 
 // GenVersion draws a protocol version: 0..LatestVersion+1 mostly, any byte sometimes.
